@@ -269,7 +269,7 @@ OCT [0-7]
     }
 }
 
-<STRING_EMBEDDED>. {
+<STRING_EMBEDDED>(.|[\n]) {
   yylval->f->str += *yyget_text (yyscanner);
 }
 
